@@ -37,6 +37,28 @@ Theorem C13_stale_locks_can_be_removed : forall (V : Type) (C : cfg V) (s : st V
 Proof. exact (@remove_locks_effect). Qed.
 Print Assumptions C13_stale_locks_can_be_removed.
 
+(* any number of workers killed at once, in any order (a node, or the whole cluster, going down):
+   no result and no lock changes, every killed worker is dead, every other worker is exactly as it was *)
+Theorem C13_any_number_of_crashes : forall (V : Type) (C : cfg V) (tr : list (ev V)) (s s' : st V),
+  forallb is_crash tr = true -> run C s tr = Some s' ->
+  results s' = results s /\ locks s' = locks s /\
+  (forall w, crashed_in tr w -> w_pc (ws s' w) = PDead) /\
+  (forall w, ~ crashed_in tr w -> ws s' w = ws s w).
+Proof. exact crash_storm_effect. Qed.
+Print Assumptions C13_any_number_of_crashes.
+
+(* ... and when every lock holder is among the killed (or dead already), `cleanup --locks-only` is
+   possible right afterwards: it frees every lock, the store holds exactly the results it held before
+   the first kill, and the state is again one that C13_fresh_execute_completes applies to *)
+Theorem C13_crashes_then_cleanup : forall (V : Type) (C : cfg V), framed C ->
+  forall r0 tr0 s tr s1, reach C r0 tr0 s ->
+  forallb is_crash tr = true -> run C s tr = Some s1 ->
+  (forall t w, locks s t = LHeld w -> crashed_in tr w \/ live (w_pc (ws s w)) = false) ->
+  exists s2, step C s1 ERemoveLocks = Some s2 /\ reach C r0 (tr0 ++ tr ++ [ERemoveLocks]) s2 /\
+             results s2 = results s /\ (forall t, locks s2 t = LFree).
+Proof. exact crash_storm_then_cleanup. Qed.
+Print Assumptions C13_crashes_then_cleanup.
+
 (* after that a fresh execute (new workers F; everybody else dead or gone) completes the whole
    computation - and by C13_completed_work_survives without re-running anything that was complete *)
 Theorem C13_fresh_execute_completes : forall (V : Type) (C : cfg V), framed C ->
@@ -62,3 +84,16 @@ Example C13_nonvacuous :
              map (results s) [1; 2; 3]%positive = [Some ex_v1; Some ex_v2; Some ex_v3] /\
              map (execs s) [1; 2; 3]%positive = [2; 1; 1] /\ w_pc (ws s 2) = PDone 0).
 Proof. split; eexists; vm_compute; repeat split; reflexivity. Qed.
+
+(* non-vacuity of the two multi-crash statements: t1 is stored, worker 1 is inside f2 holding its lock and
+   worker 0 is polling when both are killed; the result of t1 and the lock of t2 are as before, both are dead;
+   the operator's cleanup then frees the lock and keeps the result *)
+Example C13_nonvacuous_storm :
+  exists s s1 s2, run (prog_cfg ex_prog) (init (st_of [])) (firstn 17 ex_trace) = Some s /\
+    locks s 2%positive = LHeld 1 /\ results s 1%positive = Some ex_v1 /\
+    run (prog_cfg ex_prog) s [ECrash 1; ECrash 0] = Some s1 /\
+    locks s1 2%positive = LHeld 1 /\ results s1 1%positive = Some ex_v1 /\ results s1 2%positive = None /\
+    w_pc (ws s1 0) = PDead /\ w_pc (ws s1 1) = PDead /\
+    step (prog_cfg ex_prog) s1 ERemoveLocks = Some s2 /\
+    map (locks s2) [1; 2; 3]%positive = [LFree; LFree; LFree] /\ results s2 1%positive = Some ex_v1.
+Proof. do 3 eexists. vm_compute. repeat split; reflexivity. Qed.
